@@ -14,6 +14,7 @@ def life(text, ref):
     return dict(cat="model_checking", engine="X", text=text, tech=X_TECH, ref=ref)
 
 CHECKS = {
+    "C02": dict(cat="model_checking", engine="X+E", text="Every block advance of the lifecycle, capacity, fault-sequence and reward-minting explorations runs the real end-blockers and begin-blocker without recovery: a panic (chain halt) or a transition exceeding the CPU watchdog is a violation; transaction panics must surface as rejected transactions (compared with real DeliverTx in the conformance leg); the selection functions are enumerated exhaustively over small input domains under a CPU guard.", tech="explicit-state model checking of the implementation with halt/non-termination oracle + exhaustive input enumeration of the selection functions under a CPU-time watchdog", ref="5/C02"),
     "C04": life("Exhaustive search of the real handlers/end-blockers over the lifecycle alphabet. Every transition's bank flows are compared with the quotes of the orders it created, the allowed recipients, and the change of the recomputed market/order obligations (dust tolerance per settlement); every state compares claimed+accrued income with an independent bytes x blocks integral.", "5/C04, A.1"),
     "C05": life("Exhaustive search over the lifecycle alphabet plus fault-sequence scenarios (silent providers, re-assignment, give-up, cancel, updates on an existing model). At the step that ends a never-stored order: refund == charge, shards gone, pledges untouched, model restored or removed with its alias, no stale expiry entry.", "5/C05"),
     "C06": life("Exhaustive search over the lifecycle alphabet; in every reachable state each escrow balance is compared with the obligations recomputed from the records (A.1/A.2); module-paid operations failing for lack of funds are reported.", "5/C06, A.1, A.2"),
@@ -22,6 +23,7 @@ CHECKS = {
     "C12": life("Exhaustive enumeration of provider silence patterns per timeout interval (all complete/silent choices, optional late joiner, update orders, migrations) up to the give-up bound, plus the lifecycle alphabet: no unresolved order without a timeout entry, resolution within the bound, no change to a fully stored order by the timeout mechanism.", "5/C12, A.4"),
     "C13": life("Exhaustive explicit-state search of the real handlers and end-blockers over the lifecycle alphabet; the four referential-integrity relations are evaluated in every reachable state and a violation is attributed to the step that first broke it. Bounded (depth, menus) but complete within the bound.", "5/C13"),
     "C14": life("Exhaustive explicit-state search of the real handlers and end-blockers over the lifecycle alphabet; per-provider counters and pool totals are recomputed from the shard and pledge records in every reachable state.", "5/C14"),
+    "C15": dict(cat="exploration", engine="E+X", text="Exhaustive enumeration of RandomIndex and RandomSP (incl. GetNextSuperNodes, SelectNodes) inputs over small attribute domains (all populations up to 4/5 nodes over 11 classes, all ignore lists up to size 2, counts, cursors, 10 seeds) with the placement oracle on every result, plus the same oracle on every assignment made during the lifecycle and fault-sequence explorations of the real handlers.", tech="exhaustive input enumeration (engine E) + explicit-state exploration of the implementation (engine X)", ref="5/C15"),
     "C16": life("Exhaustive search over the lifecycle alphabet with updates and force-pushes plus fault-sequence scenarios: ids strictly increasing, at most one order in flight per model, updates accepted only on the latest committed base, history appended / last entry replaced at completion.", "5/C16"),
 }
 
@@ -64,7 +66,9 @@ def main():
         },
         "engines": [
             {"name": "X", "path": "mc/engine", "serves_properties": sorted(p for p, c in CHECKS.items() if "X" in c["engine"]),
-             "kind_free_text": "explicit-state explorer over flat snapshots of the real application stores; transitions are the repository's own message handlers and begin/end-blockers"},
+             "kind_free_text": "explicit-state explorer over flat snapshots of the real application stores; transitions are the repository's own message handlers and begin/end-blockers; conformance leg replays explorer traces through real ABCI"},
+            {"name": "E", "path": "mc/checks/selectE.go", "serves_properties": sorted(p for p, c in CHECKS.items() if "E" in c["engine"]),
+             "kind_free_text": "exhaustive enumeration of selection-function inputs on real keeper stores under a CPU-time guard"},
         ],
         "checks": checks,
         "not_applicable": na,
